@@ -601,7 +601,7 @@ def runCmd (c : Ctx) (s : State) (conn : Nat) (ref : Nat) (inMulti : Bool) : Cmd
   | .hincrby k f d => onDb s ref fun db => cmdHIncrBy c db k f d
   | .hincrbyfloat k f d => onDb s ref fun db => cmdHIncrByFloat c db k f d
   | .hrandfield k cnt wv => onDb s ref fun db =>
-      if (cnt.map fun x => decide (x < -2147483648) || decide (x > 2147483648)).getD false then
+      if (cnt.map fun x => decide (x < -1048576) || decide (x > 1048576)).getD false then
         R.ok db (.error (sb "ERR value is out of range")) else
       match hashOf c db k with
       | .error _ => R.ok db wrongType
@@ -618,7 +618,7 @@ def runCmd (c : Ctx) (s : State) (conn : Nat) (ref : Nat) (inMulti : Bool) : Cmd
   | .salgStore op d ks => onDb s ref fun db => cmdSetAlgebraStore c db op d ks
   | .sintercard n ks lim => onDb s ref fun db => cmdSInterCard c db n ks lim
   | .srandmember k cnt => onDb s ref fun db =>
-      if (cnt.map fun x => decide (x < -2147483648) || decide (x > 2147483648)).getD false then
+      if (cnt.map fun x => decide (x < -1048576) || decide (x > 1048576)).getD false then
         R.ok db (.error (sb "ERR value is out of range")) else
       match setOf c db k with
       | .error _ => R.ok db wrongType
